@@ -303,6 +303,83 @@ def run_hist1d_scatter_plot(rep, tier, rng):
             rep.validated()
 
 
+def run_orientation_purity(rep, tier, rng):
+    """ArgumentsUntouched for every way of giving the orientation (C18's request kinds) with and without an origin:
+    the data (positions, velocities, masses), the origin and the orientation objects are snapshot before the first call,
+    compared after each of two identical calls, and the two results must be identical"""
+    import numpy as np
+    import osyris
+    n = 4
+    c = (np.arange(n) + 0.5) / n
+    X, Y, Z = np.meshgrid(c, c, c, indexing="ij")
+    kinds = ["z", "x", "zyx", "yxz", "top", "side", "vector", "basis"]
+    origins = ["none", "zero", "offset"]
+    import numba
+    nthreads = numba.get_num_threads()
+    numba.set_num_threads(1)          # the repetition must not depend on which of two touching cells stores last
+    try:
+        _orientation_purity(rep, kinds, origins, X, Y, Z, n)
+    finally:
+        numba.set_num_threads(nthreads)
+
+
+def _orientation_purity(rep, kinds, origins, X, Y, Z, n):
+    import numpy as np
+    import osyris
+    for kind in kinds:
+        for ok in origins:
+            for thick in (False, True):
+                dg = osyris.Datagroup()
+                dg["position"] = osyris.Vector(X.ravel(), Y.ravel(), Z.ravel(), unit="cm")
+                dg["dx"] = osyris.Array(np.full(n ** 3, 1.0 / n), unit="cm")
+                dg["density"] = osyris.Array(1.0 + 8.0 * Z.ravel() + X.ravel(), unit="g/cm**3")
+                dg["mass"] = osyris.Array(1.0 + X.ravel() + 2 * Y.ravel(), unit="g")
+                # a rotation about an oblique axis so that "top"/"side" give a generic basis
+                dg["velocity"] = osyris.Vector(Z.ravel() - 0.3 * Y.ravel(), 0.3 * X.ravel() - 0.2 * Z.ravel(), 0.2 * Y.ravel() - X.ravel(), unit="cm/s")
+                origin = {"none": None, "zero": osyris.Vector(0.0, 0.0, 0.0, unit="cm"), "offset": osyris.Vector(0.4375, 0.5625, 0.4375, unit="cm")}[ok]
+                dirv = osyris.Vector(1.0, 2.0, 2.0, name="mydir")
+                dirb = osyris.VectorBasis(n=osyris.Vector(0.0, 0.0, 1.0, name="bn"), u=osyris.Vector(1.0, 0.0, 0.0, name="bu"), v=osyris.Vector(0.0, 1.0, 0.0, name="bv"))
+                direction = {"vector": dirv, "basis": dirb}.get(kind, kind)
+                snap = lambda: {"dg": {k: snap_array(v) for k, v in dg.items()}, "origin": snap_array(origin) if origin is not None else None,
+                                "dirs": [snap_array(dirv), snap_array(dirb.n), snap_array(dirb.u), snap_array(dirb.v)], "names": [dirv.name, dirb.n.name, dirb.u.name, dirb.v.name, dirv.x.name]}
+                before = snap()
+                rep.case(klass=("orientation-purity", kind, ok, thick))
+                d, results = None, []
+                try:
+                    for rpt in (1, 2):
+                        with contextlib.redirect_stdout(io.StringIO()):
+                            kw = dict(dx=0.5 * osyris.units("cm"), resolution=8, direction=direction, plot=False)
+                            if origin is not None:
+                                kw["origin"] = origin
+                            if thick:
+                                kw["dz"] = 0.25 * osyris.units("cm")
+                            try:
+                                p = osyris.map(dg.layer("density"), **kw)
+                            except RuntimeError:      # an empty map may be refused (the plane misses the data); purity is still checked
+                                p = None
+                        results.append(None if p is None else np.ma.filled(np.ma.masked_invalid(np.asarray(p.layers[0]["data"], dtype=float)), -1.0))
+                        after = snap()
+                        if not all(same_array_snap(before["dg"][k], after["dg"][k]) for k in before["dg"]):
+                            bad = [k for k in before["dg"] if not same_array_snap(before["dg"][k], after["dg"][k])]
+                            d = f"arguments: data members {bad} were modified by call {rpt}"
+                        elif before["origin"] is not None and not same_array_snap(before["origin"], after["origin"]):
+                            d = f"arguments: the origin was modified by call {rpt}"
+                        elif not all(same_array_snap(a, b) for a, b in zip(before["dirs"], after["dirs"])) or before["names"] != after["names"]:
+                            d = f"arguments: the orientation object was modified by call {rpt}"
+                        if d:
+                            break
+                except Exception as e:
+                    d = f"raises: {type(e).__name__}: {e}"
+                if d is None and kind not in ("z", "x", "zyx", "yxz") and ((results[0] is None) != (results[1] is None) or (results[0] is not None and not np.allclose(results[0], results[1], rtol=1e-12, atol=0))):
+                    # axis-aligned planes through cell faces are excluded from the repetition (face pixels may go either way)
+                    d = "repetition: two identical calls on the same inputs returned different maps"
+                if d:
+                    rep.mismatch({"module": "LayerOptions", "fn": "map", "field": "orientation-" + d.split(":")[0]}, f"direction kind {kind} origin {ok} {'thick' if thick else 'thin'}: {d}",
+                                 case={"kind": kind, "origin": ok, "thick": thick}, module="layers")
+                else:
+                    rep.validated()
+
+
 def run_c19(rep, tier, seed):
     import osyris  # noqa
     rng = random.Random(seed + 61)
@@ -320,6 +397,7 @@ def run_c19(rep, tier, seed):
     for idx, rec in enumerate(chosen):
         run_history(rep, rec, idx, rng)
     run_hist1d_scatter_plot(rep, tier, rng)
+    run_orientation_purity(rep, tier, rng)
     rep.sample({"history": chosen[len(one) + 1]["hist"], "layer_level_options": chosen[len(one) + 1]["layer"]}, limit=2)
     rep.part("replay", histories=len(chosen), of_length_1=len(one), of_length_2=len(chosen) - len(one), emitted=len(recs))
     rep.cov["rule"] = ("LayerOptions.tla enumerates every history of up to 2 calls of map / histogram2d over the lattice of call-level option sets (each of mode, norm, vmin, vmax, operation, extra keyword "
